@@ -157,24 +157,23 @@ void vorbis_bitrate_init(vorbis_info *vi, bitrate_manager_state *bm)
 
 /* ---- vorbis_bitrate_flushpacket: the packet handed out is the chosen blob (C14, C04, C05) */
 #ifdef VERIF_UNIT_BRFLUSH
-unsigned char *g_blobbuf;
 unsigned char *oggpack_get_buffer(oggpack_buffer *b) __CPROVER_assigns() __CPROVER_ensures(RV == b->buffer);
 #define FB(vd) (&((private_state *)(vd)->backend_state)->bms)
+/* ghost (set by the harness by assignment): the pending block and the blob the
+   manager's choice designates (the middle blob when unmanaged) */
+vorbis_block *g_fvb; oggpack_buffer *g_fblob;
 int vorbis_bitrate_flushpacket(vorbis_dsp_state *vd, ogg_packet *op)
   __CPROVER_requires(__CPROVER_rw_ok(vd, sizeof(*vd)) && __CPROVER_rw_ok(vd->backend_state, sizeof(private_state)))
   __CPROVER_requires(op == NULL || __CPROVER_rw_ok(op, sizeof(*op)))
-  __CPROVER_requires(FB(vd)->vb == NULL || (__CPROVER_rw_ok(FB(vd)->vb, sizeof(vorbis_block)) && FB(vd)->vb->vd == vd &&
-                     __CPROVER_rw_ok(FB(vd)->vb->internal, sizeof(vorbis_block_internal)) && ALL_BLOBS_FRESH(FB(vd)->vb)))
   /* vorbis_bitrate_addblock's postcondition (1) */
-  __CPROVER_requires(FB(vd)->choice >= 0 && FB(vd)->choice < PACKETBLOBS)
+  __CPROVER_requires(FB(vd)->choice >= 0 && FB(vd)->choice < PACKETBLOBS && g_fvb == FB(vd)->vb)
+  __CPROVER_requires(g_fvb == NULL || (g_fblob == ((vorbis_block_internal *)g_fvb->internal)->packetblob[FB(vd)->managed ? FB(vd)->choice : PACKETBLOBS / 2] && INV_OPBW(g_fblob)))
   __CPROVER_assigns(FB(vd)->vb)
   __CPROVER_assigns(op != NULL: *op)
-#define FCH(vd) (FB(vd)->managed ? FB(vd)->choice : PACKETBLOBS / 2)
-  __CPROVER_ensures(RV == (OLD(FB(vd)->vb) != NULL ? 1 : 0) && FB(vd)->vb == NULL)
+  __CPROVER_ensures(RV == (g_fvb != NULL ? 1 : 0) && FB(vd)->vb == NULL)
   __CPROVER_ensures((RV == 1 && op != NULL) ==>
-     (op->packet == BLOB(OLD(FB(vd)->vb), FCH(vd))->buffer && op->bytes == OPB_BYTES(BLOB(OLD(FB(vd)->vb), FCH(vd))) &&
-      op->b_o_s == 0 && op->e_o_s == OLD(FB(vd)->vb)->eofflag && op->granulepos == OLD(FB(vd)->vb)->granulepos &&
-      op->packetno == OLD(FB(vd)->vb)->sequence))
+     (op->packet == g_fblob->buffer && op->bytes == OPB_BYTES(g_fblob) &&
+      op->b_o_s == 0 && op->e_o_s == g_fvb->eofflag && op->granulepos == g_fvb->granulepos && op->packetno == g_fvb->sequence))
 #ifdef VERIF_ENFORCE_vorbis_bitrate_flushpacket
   REACH_ENSURES(RV == 1 && op != NULL && FB(vd)->managed && FB(vd)->choice == 14)
   REACH_ENSURES(RV == 0)
